@@ -65,6 +65,94 @@ Dom_Dihedral(a1, a2, a3, a4, bo) ==
 \* centroid(P) = Sum / n  as <<numerator vector, n>>
 Centroid(P) == <<VSum(P), Len(P)>>
 
+(* ------------------------------------------------------------------ operand shapes, broadcasting *)
+(* "The dimensions may vary ... usual NumPy broadcasting rules apply": every operand of
+   displacement / distance / angle / dihedral is <<rank, X>> with
+     rank 1   X a position                          ndarray (3,)     or Atom
+     rank 2   X a sequence of n positions           ndarray (n,3)    or AtomArray
+     rank 3   X a sequence of m models of n atoms   ndarray (m,n,3)  or AtomArrayStack
+   in ANY order and ANY argument position.  The result has the highest rank among the
+   operands; its entry (model mi, atom ai) is the textbook value on the positions the
+   operands contribute to that entry (a rank-2 operand the same atoms to every model, a
+   rank-1 operand the same position to every entry).
+   The box argument ba is <<>> (none), <<"one", B>> (shape (3,3), the same box for every model)
+   or <<"per", <<B1, .., Bm>>>> (shape (m,3,3), "only allowed when the input coordinates
+   comprise multiple models"). *)
+OperandAt(op, mi, ai) == CASE op[1] = 1 -> op[2] [] op[1] = 2 -> op[2][ai] [] op[1] = 3 -> op[2][mi][ai]
+ResultRank(ops) == SetMax({ops[j][1] : j \in DOMAIN ops})
+ModelCounts(ops) == {Len(ops[j][2]) : j \in {i \in DOMAIN ops : ops[i][1] = 3}}
+AtomCounts(ops) == {Len(ops[j][2]) : j \in {i \in DOMAIN ops : ops[i][1] = 2}}
+                     \cup {Len(ops[j][2][1]) : j \in {i \in DOMAIN ops : ops[i][1] = 3}}
+ModelCount(ops) == IF ModelCounts(ops) = {} THEN 1 ELSE SetMax(ModelCounts(ops))
+AtomCount(ops) == IF AtomCounts(ops) = {} THEN 1 ELSE SetMax(AtomCounts(ops))
+\* the operands can be broadcast: equal atom counts, equal model counts
+Dom_Operands(ops) == Cardinality(ModelCounts(ops)) <= 1 /\ Cardinality(AtomCounts(ops)) <= 1
+Dom_BoxArg(ba, ops) ==
+  \/ ba = <<>>
+  \/ ba[1] = "one" /\ Dom_DyadicBox(ba[2])
+  \/ ba[1] = "per" /\ ResultRank(ops) = 3 /\ Len(ba[2]) = ModelCount(ops)
+                   /\ \A i \in DOMAIN ba[2] : Dom_DyadicBox(ba[2][i])
+BoxAt(ba, mi) == IF ba = <<>> THEN <<>> ELSE IF ba[1] = "one" THEN <<ba[2]>> ELSE <<ba[2][mi]>>
+
+FnNames == {"displacement", "distance", "angle", "dihedral"}
+FnArity(fn) == CASE fn = "displacement" -> 2 [] fn = "distance" -> 2 [] fn = "angle" -> 3 [] fn = "dihedral" -> 4
+\* the displacements a function forms, as <<from, to>> argument positions
+BondPairs(fn) == CASE fn = "displacement" -> {<<1, 2>>} [] fn = "distance" -> {<<1, 2>>}
+                   [] fn = "angle" -> {<<1, 2>>, <<3, 2>>} [] fn = "dihedral" -> {<<1, 2>>, <<2, 3>>, <<3, 4>>}
+\* textbook value on the positions p (one per argument), bc = <<>> or <<BoxCtx(B)>>
+FnValueP(fn, p, bc) ==
+  CASE fn = "displacement" -> DisplacementP(p[1], p[2], bc)
+    [] fn = "distance" -> Norm2(DisplacementP(p[1], p[2], bc))
+    [] fn = "angle" -> AngleOf(DisplacementP(p[1], p[2], bc), DisplacementP(p[3], p[2], bc))
+    [] fn = "dihedral" -> DihedralOf(DisplacementP(p[1], p[2], bc), DisplacementP(p[2], p[3], bc), DisplacementP(p[3], p[4], bc))
+\* the value is defined (no zero-length vector, no collinear triple)
+FnDomP(fn, p, bc) ==
+  CASE fn = "angle" -> DisplacementP(p[1], p[2], bc) # Zero3 /\ DisplacementP(p[3], p[2], bc) # Zero3
+    [] fn = "dihedral" -> LET b1 == DisplacementP(p[1], p[2], bc)  b2 == DisplacementP(p[2], p[3], bc)  b3 == DisplacementP(p[3], p[4], bc)
+                          IN Cross(b1, b2) # Zero3 /\ Cross(b2, b3) # Zero3
+    [] OTHER -> TRUE
+(* the periodic value is specified: every displacement the function forms has a unique minimum
+   image inside the property's range (ties and the range beyond half the box height are unspecified) *)
+PairSpecified(d, B) ==
+  LET mins == MinImages(d, B, 2) IN
+  Cardinality(mins) = 1 /\ (IsOrthogonalBox(B) \/ Dom_HalfHeight(Norm2(CHOOSE x \in mins : TRUE), B))
+FnSpecified(fn, p, bo) ==
+  bo = <<>> \/ \A pr \in BondPairs(fn) : PairSpecified(VSub(p[pr[2]], p[pr[1]]), bo[1])
+\* entry = <<value, specified, defined>>
+EntryOf(fn, p, bo, bc) == <<FnValueP(fn, p, bc), FnSpecified(fn, p, bo), FnDomP(fn, p, bc)>>
+\* the result of fn(ops[1], .., ops[k], box = ba) as [model][atom] (a result of rank 2 has one
+\* model, of rank 1 one model and one atom)
+Broadcast(fn, ops, ba) ==
+  LET bcs == EagerSeq([mi \in 1..ModelCount(ops) |-> CtxOf(BoxAt(ba, mi))]) IN
+  [mi \in 1..ModelCount(ops) |-> [ai \in 1..AtomCount(ops) |->
+      EntryOf(fn, [j \in DOMAIN ops |-> OperandAt(ops[j], mi, ai)], BoxAt(ba, mi), bcs[mi])]]
+
+(* implementation-shaped: displacement() decides the order of the subtraction by the
+   dimensionality of the operands ("an array can be only subtracted by an array with less
+   dimensions"): v2 - v1 when rank1 <= rank2, else -(v1 - v2) *)
+ImplDiffByRank(r1, r2, v1, v2) == IF r1 <= r2 THEN VSub(v2, v1) ELSE VNeg(VSub(v1, v2))
+ImplDisplacementByRank(r1, r2, a, b, bc) ==
+  LET d == ImplDiffByRank(r1, r2, a, b) IN IF bc # <<>> THEN ImplDispP(d, bc[1]) ELSE d
+ImplFnValueP(fn, r, p, bc) ==
+  LET D(i, j) == ImplDisplacementByRank(r[i], r[j], p[i], p[j], bc) IN
+  CASE fn = "displacement" -> D(1, 2)
+    [] fn = "distance" -> Norm2(D(1, 2))
+    [] fn = "angle" -> AngleOf(D(1, 2), D(3, 2))
+    [] fn = "dihedral" -> DihedralOf(D(1, 2), D(2, 3), D(3, 4))
+\* the value after reversing the order of the arguments: the displacement is negated, distance,
+\* angle and dihedral are unchanged
+ReversedValue(fn, v) == IF fn = "displacement" THEN VNeg(v) ELSE v
+
+(* index_xxx(atoms, indices, periodic, box) = xxx(atoms[.., indices[:,1], :], .., box): atoms is an
+   operand of rank 2 or 3, rows a sequence of index tuples (1-based here) *)
+Gather(atoms, rows, p) ==
+  IF atoms[1] = 2 THEN <<2, [r \in DOMAIN rows |-> atoms[2][rows[r][p]]]>>
+  ELSE <<3, [mi \in DOMAIN atoms[2] |-> [r \in DOMAIN rows |-> atoms[2][mi][rows[r][p]]]]>>
+IndexFn(fn, atoms, rows, ba) == Broadcast(fn, [p \in 1..FnArity(fn) |-> Gather(atoms, rows, p)], ba)
+
+\* centroid(atoms): rank 2 -> one centroid, rank 3 -> one per model; as [model] of <<numerators, n>>
+CentroidOf(op) == IF op[1] = 2 THEN <<Centroid(op[2])>> ELSE [mi \in DOMAIN op[2] |-> Centroid(op[2][mi])]
+
 (* ------------------------------------------------------------------ rigid motions *)
 (* translate(P, t); rotate(P, angles) with Euler quarter turns e: matrix EulerMat(e);
    rotate_about_axis(P, axis, angle, support): x |-> R (x - s) + s;
